@@ -53,7 +53,8 @@ EXC_KINDS = ["ValueError", "RuntimeError", "KeyError", "UserError", "LibCustom",
              "TypeError", "AttributeError", "ZeroDivisionError", "StopIteration", "NotImplementedError", "IndexError"]
 SIGNATURES = ["strict", "flexible", "varargs", "callback", "method"]
 ORIGINS = ["module", "deep:1", "deep:7", "deep:60", "pingpong:5", "exec:<string>", "exec:", "exec:deleted",
-           "chain:1:explicit", "chain:3:implicit", "chain:2:explicit", "multiline", "multiline-nested"]
+           "chain:1:explicit", "chain:3:implicit", "chain:2:explicit", "multiline", "multiline-nested",
+           "indent:3", "increment:2"]  # the last two: raised inside an indentation scope of the handler's I/O
 LINES = [(["run"], {"a1": None}, {}), (["run", "v1"], {"a1": "v1"}, {}), (["run", "--foo", "v1"], {"a1": "v1"}, {"foo": True}),
          (["run", "-f"], {"a1": None}, {"foo": True})]
 
@@ -147,7 +148,15 @@ def build(case, log):
             return RETURNS[outcome["value"]]
         exc = make_exception(outcome["exc"], outcome["message"])
         log.append(("raised", exc))
-        raise_from(outcome["origin"], exc)
+        origin = outcome["origin"]
+        if origin.startswith("indent:"):
+            with io.indent(int(origin.split(":")[1])):
+                io.write_line("inside the scope")
+                raise_from("module", exc)
+        if origin.startswith("increment:"):
+            with io.output.increment_indent(int(origin.split(":")[1])):
+                raise_from("deep:1", exc)
+        raise_from(origin, exc)
 
     # the handler's signature: exactly (args, io, command), with a defaulted command, or *args
     signature = case.get("signature", "strict")
